@@ -1,5 +1,7 @@
 import MJ.Proofs.LexerLine
 import MJ.Proofs.LexerAC
+import MJ.Proofs.LexerKern
+import MJ.Gen.Tables
 /-!
 # C10 — text is verbatim and whitespace control exact under any delimiter configuration
 
@@ -322,5 +324,91 @@ theorem lookalike_is_text (cfg : Cfg) (vm bm : List Char) (d : Delims) (t : List
 example : noStartIn erb ['a', '{', '{', ' ', 'x', ' ', '}', '}', '{', '%', ' ', 'y', ' ', '%', '}'] [] = true ∧
     findStartDefault ['a', '{', '{', ' ', 'x', ' ', '}', '}', '{', '%', ' ', 'y', ' ', '%', '}'] ≠ none := by
   decide
+
+/-! ## the search kernels -/
+
+/-- `memstr` (as the lexer uses it for the comment end and for the block start inside raw blocks):
+    the model `findSub` returns the least offset at which the needle is a prefix of the rest of the
+    haystack, and `none` only if there is no such offset. -/
+theorem memstr_is_leftmost (pat s : List Char) : LeftmostOcc pat s (findSub pat s) :=
+  findSub_leftmost pat s
+
+/-- … and that determines the function: any search with this specification is `findSub` -/
+theorem memstr_unique (pat s : List Char) (r : Option Nat) (h : LeftmostOcc pat s r) : r = findSub pat s :=
+  leftmostOcc_unique h
+
+/-- `--->` contains `-->` at offset 1 (the case a skipping matcher misses) -/
+example : findSub ['-', '-', '>'] ['-', '-', '-', '>'] = some 1 ∧
+    findSub ['{', '{', '%'] ['x', '{', '{', '{', '%', ' '] = some 2 ∧
+    findSub ['a', 'b', 'a', 'b'] ['a', 'b', 'a', 'a', 'b', 'a', 'b'] = some 3 := by decide
+
+/-- `memchr`: the least offset of the byte -/
+theorem memchr_is_leftmost (c : Char) (s : List Char) : LeftmostChar c s (findChar c s) :=
+  findChar_leftmost c s
+
+example : findChar '{' ['a', '{', '{'] = some 1 ∧ findChar '{' ['a'] = none := by decide
+
+/-! ## literals of the source the model transcribes (regenerated into `MJ.Gen` on every run) -/
+
+/-- `DEFAULT_DELIMS` of `syntax.rs` = `defaultDelims` -/
+theorem table_default_delims :
+    MJ.Gen.c10DefaultDelims.map String.toList =
+      [defaultDelims.bs, defaultDelims.be, defaultDelims.vs, defaultDelims.ve, defaultDelims.cs, defaultDelims.ce,
+       defaultDelims.ls, defaultDelims.lc] := by decide
+
+/-- order and `required` flags of `validated_start_delims` = what `validatedStartDelims` iterates -/
+theorem table_validated_order :
+    MJ.Gen.c10ValidatedOrder =
+      [("variable_start", true), ("block_start", true), ("comment_start", true),
+       ("line_statement_prefix", false), ("line_comment_prefix", false)] := by decide
+
+/-- `pattern_to_marker` = `patternToMarker` -/
+theorem table_pattern_to_marker :
+    MJ.Gen.c10PatternToMarker =
+      [("0", ["Variable"]), ("1", ["Block"]), ("2", ["Comment"]), ("3", ["LineStatement", "LineComment"]),
+       ("4", ["LineComment"]), ("_", [])] := by decide
+
+/-- `Whitespace::from_byte` = `wsOfChar` -/
+theorem table_ws_from_byte :
+    MJ.Gen.c10WsFromByte = [('-', "Remove"), ('+', "Preserve")] ∧ MJ.Gen.c10WsDefault = "Default" := by decide
+
+/-- the operator tables of `tokenize_block_or_var` = `singleOp` (on all of ASCII) / `twoCharOp` -/
+theorem table_operators :
+    (List.range 128).all (fun n =>
+      singleOp (Char.ofNat n) == (MJ.Gen.c10SingleOps.find? (·.1 == Char.ofNat n)).map (·.2)) = true ∧
+    MJ.Gen.c10TwoOps = [('/', '/'), ('*', '*'), ('=', '='), ('!', '='), ('>', '='), ('<', '=')] ∧
+    MJ.Gen.c10Quotes = ['\'', '"'] := by decide
+
+/-- `twoCharOp` is membership in that table -/
+theorem twoCharOp_iff (a b : Char) :
+    twoCharOp a b = true ↔ (a, b) ∈ [('/', '/'), ('*', '*'), ('=', '='), ('!', '='), ('>', '='), ('<', '=')] := by
+  simp [twoCharOp, or_assoc]
+
+/-- the radix prefixes of `eat_number` = `radixPrefix` -/
+theorem table_radix :
+    MJ.Gen.c10RadixPrefixes.all (fun p => radixPrefix p.1 [p.2.1] == some p.2.2) = true ∧
+    (List.range 128).all (fun n =>
+      (radixPrefix '0' [Char.ofNat n]).isSome == MJ.Gen.c10RadixPrefixes.any (·.2.1 == Char.ofNat n)) = true := by decide
+
+/-- every substring / byte search of `lexer.rs` is one the model transcribes: `memchr` in
+    `find_start_marker_memchr` (`findStartDefault`), `find_overlapping` and the line-start `find` in
+    `find_start_marker` (`acFind`, `lineStartP`), `memstr` in `handle_start_marker` (comment end,
+    `findSub`) and `handle_raw_tag` (`findEndraw`), `strip_prefix` in `skip_basic_tag` / `skip_nl`,
+    `trim_*` in `lstrip_block`, `tokenize_root` and `handle_raw_tag`, `starts_with` for the end
+    delimiters in `tokenize_block_or_var`, `ends_with` in `Tokenizer::new`, and the `take_while` /
+    `map_while` / `position` scans of identifiers, numbers, strings, whitespace and line comments.
+    A new call site or helper changes this table and breaks the theorem. -/
+theorem table_search_sites :
+    MJ.Gen.c10SearchSites =
+      [("eat_number", "ends_with", 1), ("eat_number", "take_while", 1), ("eat_string", "take_while", 1),
+       ("find_start_marker", "find", 1), ("find_start_marker", "find_overlapping", 1),
+       ("find_start_marker_memchr", "memchr", 1), ("handle_raw_tag", "memstr", 1),
+       ("handle_raw_tag", "starts_with", 2), ("handle_raw_tag", "trim_end", 1), ("handle_raw_tag", "trim_start", 1),
+       ("handle_start_marker", "memstr", 1), ("handle_start_marker", "take_while", 1),
+       ("lex_identifier", "map_while", 1), ("lex_identifier", "take_while", 1),
+       ("lstrip_block", "trim_end_matches", 1), ("new", "ends_with", 2), ("skip_basic_tag", "strip_prefix", 7),
+       ("skip_nl", "strip_prefix", 2), ("skip_whitespace", "map_while", 1),
+       ("tokenize_block_or_var", "position", 1), ("tokenize_block_or_var", "starts_with", 4),
+       ("tokenize_block_or_var", "take_while", 1), ("tokenize_root", "trim_end", 1)] := by decide
 
 end MJ.C10
